@@ -261,11 +261,12 @@ Section Steps.
       + apply S2. left. reflexivity.
       + split; [match goal with |- next s <= next ?sf => assert (HnF : next sf = next s2) by exact Hn4; rewrite HnF end; lia|].
         intros r y Hy. rewrite HkF. replace (Nat.eqb y (next s)) with false by (symmetry; apply Nat.eqb_neq; lia). rewrite andb_false_r. reflexivity.
-      + split.
+      + split; [|split].
         * intros i Hi. destruct (forall2_in_r _ _ _ F2 i Hi) as [i' [Hi' [Hm _]]]. exists i'. split; [exact Hm|].
           rewrite HkF, rel_eqb_refl, Nat.eqb_refl. exact Hi'.
         * intros i' Hi'. rewrite HkF, rel_eqb_refl, Nat.eqb_refl in Hi'. destruct (forall2_in_l _ _ _ F2 i' Hi') as [i [Hi [Hm _]]].
           exists i. split; [exact Hm|exact Hi].
+        * rewrite HkF, rel_eqb_refl, Nat.eqb_refl. revert F2. apply forall2_mono. intros a0 b0 [H _]. exact H.
   Qed.
 End Steps.
 
